@@ -262,10 +262,8 @@ func runEnv(r *hx.Run, c hx.Case) {
 			continue
 		}
 		if i < len(want) && pl.Box != want[i] {
+			// the line is well-formed but names another mailbox (e.g. a quoting routine that rewrites bytes)
 			cls := "path-denotes-other-mailbox"
-			if addrx.NeedsQuoting(want[i].Local) {
-				cls = "unquoted-local-part"
-			}
 			r.Fail(c.ID, cls, fmt.Sprintf("%q denotes %q, intended %q", l, pl.Box.String(), want[i].String()))
 		}
 		if (i == 0) != (pl.Verb == "MAIL") {
@@ -529,6 +527,14 @@ func Run(r *hx.Run, replay []hx.Case) {
 	// DESIGN section 6 row 11 and the HELO witness first
 	runCase(r, envCase(r, "110", nil, `"a b"@x.test`, []string{`"x>y"@x.test`, `"p@q"@x.test`, `"c,d"@x.test`, `"q\"uo\\te"@x.test`}))
 	runCase(r, envCase(r, "111", []dsnOpt{{kind: "D"}}, "plain@x.test", []string{`"tab	x"@x.test`}))
+	// quoted-string local parts with valid UTF-8 that is not "printable" for Go (an escaping routine meant for
+	// Go source would turn them into ASCII escapes): must arrive byte for byte, SMTPUTF8 advertised
+	for i, np := range addrx.NonPrintRunes {
+		caps := []string{"010", "110", "111", "011"}[i%4]
+		runCase(r, envCase(r, caps, nil, "sender@origin.test",
+			[]string{`"john` + np + `doe smith"@rcpt.test`, `"` + np + ` "@x.test`, "a" + np + "b@x.test"}))
+		runCase(r, envCase(r, caps, nil, `"bounce `+np+`"@origin.test`, []string{"plain@x.test"}))
+	}
 	runCase(r, heloCase(r, "my host extra", false))
 	for _, n := range heloNames {
 		runCase(r, heloCase(r, n, false))
